@@ -113,6 +113,14 @@ Definition expected_sync_sites : list (string * sev) := [
   ("Txn.Abort", Unlock)
 ].
 
+(* ---- the state of Router that is shared between goroutines once the router is built: the published tree and
+        the writer lock, nothing else; and no function assigns a Router field after construction. A new atomic /
+        mutex / channel field (e.g. a cache filled by readers and dropped by Commit), or a field written on a write
+        path, is a new shared variable that Protocol.v does not model: it re-opens this obligation. ---- *)
+Definition expected_router_sync_fields : list (string * string) :=
+  [("tree", "atomic.Pointer[fox.iTree]"); ("mu", "sync.Mutex")].
+Definition expected_router_field_writers : list (string * string) := [].
+
 (* ---------- derived views of a skeleton ---------- *)
 
 Definition is_return (e : sev) : bool := match e with Return _ => true | _ => false end.
